@@ -107,6 +107,10 @@ func (bpi *BucketPolicyItem) Validate(bucket string, iam IAMService) error {
 		return err
 	}
 
+	if len(bpi.Actions) == 0 {
+		return policyErrInvalidAction
+	}
+
 	containsObjectAction := bpi.Resources.ContainsObjectPattern()
 	containsBucketAction := bpi.Resources.ContainsBucketPattern()
 
